@@ -38,8 +38,12 @@ AreaTypes == {"continental plate", "oceanic plate", "mantle layer"}
 (* which: the surface is the feature's max depth (min depth constant), its min depth (max depth constant), or both
    (the max depth surface is the min depth surface shifted down by 150 km) *)
 Configs == [poly : 1..3, listed : SUBSET (1..4), nint : 0..2, affine : BOOLEAN, cornersfirst : BOOLEAN, type : AreaTypes, which : {"max", "min", "both"},
-            reset : Resets]
+            reset : Resets,
+            where : {"feature", "composition model", "temperature model"},   \* whose min / max depth the surface is
+            sph : BOOLEAN]                                                   \* lattice unit 1 degree instead of 100 km
 Valid(c) == /\ c.affine => (c.listed = 1..4 /\ c.reset = "none")   \* affine data need every corner listed (a fifth corner of the pentagon too)
+            \* model-level surfaces and spherical worlds: on the second polygon, oceanic plates, corners first
+            /\ (c.where # "feature" \/ c.sph) => (c.poly = 2 /\ c.type = "oceanic plate" /\ c.cornersfirst /\ c.reset = "none")
             /\ c.reset # "none" => c.nint > 0                       \* a later point-less entry is interesting when listed interior points precede it
 ResetV == 80                                       \* the value of the later point-less entry: resets the corners, and only the corners
 
@@ -94,25 +98,35 @@ MechRefinesProp(c) ==
 (***************************************************************************)
 U == 100 * Km
 HM == 2000 * Km
-PtM(p) == <<p[1] * U, p[2] * U>>
-RenderEntry(e, shift) == IF Len(e) = 1 THEN <<(e[1] + shift) * Km>> ELSE <<(e[1] + shift) * Km, [j \in 1..Len(e[2]) |-> PtM(e[2][j])]>>
-SurfaceOf(c, shift) == [k \in 1..Len(Entries(c)) |-> RenderEntry(Entries(c)[k], shift)]
-Doc(c) == World(Cartesian,
-                <<Area(c.type, "p", [i \in 1..Len(Polygons[c.poly]) |-> PtM(Polygons[c.poly][i])],
-                       IF c.which = "max" THEN 0 ELSE SurfaceOf(c, 0),
-                       CASE c.which = "max" -> SurfaceOf(c, 0) [] c.which = "min" -> 400 * Km [] c.which = "both" -> SurfaceOf(c, 150),
-                       <<>>, <<CUniform(<<1>>, "replace")>>, <<>>, <<>>)>>)
+RE == 6371000
+PtM(c, p) == IF c.sph THEN <<p[1], p[2]>> ELSE <<p[1] * U, p[2] * U>>
+RenderEntry(c, e, shift) == IF Len(e) = 1 THEN <<(e[1] + shift) * Km>> ELSE <<(e[1] + shift) * Km, [j \in 1..Len(e[2]) |-> PtM(c, e[2][j])]>>
+SurfaceOf(c, shift) == [k \in 1..Len(Entries(c)) |-> RenderEntry(c, Entries(c)[k], shift)]
+LoOf(c) == IF c.which = "max" THEN 0 ELSE SurfaceOf(c, 0)
+HiOf(c) == CASE c.which = "max" -> SurfaceOf(c, 0) [] c.which = "min" -> 400 * Km [] c.which = "both" -> SurfaceOf(c, 150)
+(* the observed quantity switches between "on" and "off" where the surface is: composition 1 (1 / 0), or for a temperature
+   model the temperature (500 / the background, 1600 exactly with thermal expansion 0) *)
+Doc(c) == World(IF c.sph THEN Spherical("begin segment") ELSE Cartesian,
+                <<Area(c.type, "p", [i \in 1..Len(Polygons[c.poly]) |-> PtM(c, Polygons[c.poly][i])],
+                       IF c.where = "feature" THEN LoOf(c) ELSE 0, IF c.where = "feature" THEN HiOf(c) ELSE 700 * Km,
+                       IF c.where = "temperature model" THEN <<TUniform(500, "replace") @@ ("min depth" :> LoOf(c)) @@ ("max depth" :> HiOf(c))>> ELSE <<>>,
+                       IF c.where = "temperature model" THEN <<>>
+                       ELSE IF c.where = "composition model" THEN <<CUniform(<<1>>, "replace") @@ ("min depth" :> LoOf(c)) @@ ("max depth" :> HiOf(c))>>
+                       ELSE <<CUniform(<<1>>, "replace")>>, <<>>, <<>>)>>)
+          @@ ("thermal expansion coefficient" :> 0) @@ ("potential mantle temperature" :> 1600)
+On(c)  == IF c.where = "temperature model" THEN 500 ELSE 1
+Off(c) == IF c.where = "temperature model" THEN 1600 ELSE 0
 
 MinNodal(c) == LET N == Nodal(c) IN CHOOSE m \in {N[p] : p \in DOMAIN N} : \A p \in DOMAIN N : m <= N[p]
 MaxNodal(c) == LET N == Nodal(c) IN CHOOSE m \in {N[p] : p \in DOMAIN N} : \A p \in DOMAIN N : m >= N[p]
 
 (* rows <<x, y, z, depth, expected composition>>: 1 m above the predicted depth the composition is on, 1 m below off *)
-SwitchAt(p2, d, shallow, deep) == << <<p2[1] * 50 * Km, p2[2] * 50 * Km, HM - (d - 1), d - 1, shallow>>,
-                                      <<p2[1] * 50 * Km, p2[2] * 50 * Km, HM - (d + 1), d + 1, deep>> >>
+RowAt(c, p2, d, v) == IF c.sph THEN <<RE - d, Rat(p2[1], 2), Rat(p2[2], 2), d, v>> ELSE <<p2[1] * 50 * Km, p2[2] * 50 * Km, HM - d, d, v>>
+SwitchAt(c, p2, d, shallow, deep) == << RowAt(c, p2, d - 1, shallow), RowAt(c, p2, d + 1, deep) >>
 (* d2: twice the predicted depth in metres (half-lattice values of the affine function are half-integers in km) *)
-SwitchC(c, p2, d) == CASE c.which = "max" -> SwitchAt(p2, d, 1, 0)
-                       [] c.which = "min" -> SwitchAt(p2, d, 0, 1)
-                       [] c.which = "both" -> SwitchAt(p2, d, 0, 1) \o SwitchAt(p2, d + 150 * Km, 1, 0)
+SwitchC(c, p2, d) == CASE c.which = "max" -> SwitchAt(c, p2, d, On(c), Off(c))
+                       [] c.which = "min" -> SwitchAt(c, p2, d, Off(c), On(c))
+                       [] c.which = "both" -> SwitchAt(c, p2, d, Off(c), On(c)) \o SwitchAt(c, p2, d + 150 * Km, On(c), Off(c))
 Switch(c, p2, dkm) == SwitchC(c, p2, dkm * Km)
 (* interior probes on the half lattice (coordinates doubled), strictly inside the rectangles *)
 HalfProbes(c) == CASE c.poly = 1 -> {<<x, y>> : x \in 1..7, y \in 1..5}
@@ -120,8 +134,11 @@ HalfProbes(c) == CASE c.poly = 1 -> {<<x, y>> : x \in 1..7, y \in 1..5}
                    [] c.poly = 3 -> {<<x, y>> : x \in -2..3, y \in 1..4}
 Rows(c) ==
   LET N == Nodal(c)
-      nodal == FlattenSeq([k \in 1..Cardinality(DOMAIN N) |->
-                  LET p == SetToSeq(DOMAIN N)[k] IN Switch(c, <<2 * p[1], 2 * p[2]>>, N[p])])
+      \* on the sphere a polygon corner is a boundary point only up to rounding (degrees -> radians -> Cartesian and back):
+      \* there the nodal values are observed at the listed interior points only
+      nodes == IF c.sph THEN (DOMAIN N) \ Corners(c) ELSE DOMAIN N
+      nodal == FlattenSeq([k \in 1..Cardinality(nodes) |->
+                  LET p == SetToSeq(nodes)[k] IN Switch(c, <<2 * p[1], 2 * p[2]>>, N[p])])
       hp == SetToSeq(HalfProbes(c))
       inside == IF c.affine
                 THEN FlattenSeq([k \in 1..Len(hp) |->
@@ -130,19 +147,21 @@ Rows(c) ==
                 ELSE FlattenSeq([k \in 1..Len(hp) |->
                         \* the local depth lies between the smallest and the largest nodal value
                         LET lo == MinNodal(c) * Km - 1  hi == MaxNodal(c) * Km + 1
-                            row(d, v) == <<hp[k][1] * 50 * Km, hp[k][2] * 50 * Km, HM - d, d, v>>
-                        IN CASE c.which = "max" -> <<row(lo, 1), row(hi, 0)>>
-                             [] c.which = "min" -> <<row(lo, 0), row(hi, 1)>>
-                             [] c.which = "both" -> <<row(lo, 0), row(hi, 1), row(lo + 150 * Km, 1), row(hi + 150 * Km, 0)>>])
+                            row(d, v) == RowAt(c, hp[k], d, v)
+                        IN CASE c.which = "max" -> <<row(lo, On(c)), row(hi, Off(c))>>
+                             [] c.which = "min" -> <<row(lo, Off(c)), row(hi, On(c))>>
+                             [] c.which = "both" -> <<row(lo, Off(c)), row(hi, On(c)), row(lo + 150 * Km, On(c)), row(hi + 150 * Km, Off(c))>>])
   IN nodal \o inside
 
 Behaviour(c) ==
   [id |-> <<"surface", c>>,
-   labels |-> <<"surface", IF c.affine THEN "affine" ELSE "bumped", "poly" \o ToString(c.poly), c.type, "surface-of-" \o c.which, "reset-" \o c.reset>>
+   labels |-> <<"surface", IF c.affine THEN "affine" ELSE "bumped", "poly" \o ToString(c.poly), c.type, "surface-of-" \o c.which, "reset-" \o c.reset,
+                c.where, IF c.sph THEN "spherical" ELSE "cartesian">>
               \o (IF \E e \in {Entries(c)[k] : k \in 1..Len(Entries(c))} : Len(e) = 2 /\ e[2][1] \in Corners(c) /\ (e[2][1][1] = 0 \/ e[2][1][2] = 0)
                   THEN <<"listed-corner-with-zero-coordinate">> ELSE <<>>),
    steps |-> << [op |-> "create", h |-> 1, wb |-> Doc(c)],
-                [op |-> "qtable", h |-> 1, dim |-> 3, props |-> <<PC(1)>>, checks |-> <<[k |-> "eq", at |-> 0, col |-> 4]>>, rows |-> Rows(c)] >>]
+                [op |-> "qtable", h |-> 1, dim |-> 3, sph |-> c.sph, props |-> <<IF c.where = "temperature model" THEN PT ELSE PC(1)>>,
+                 checks |-> <<[k |-> "eq", at |-> 0, col |-> 4]>>, rows |-> Rows(c)] >>]
 
 VARIABLE cfg
 Init == cfg \in {c \in Configs : Valid(c)}
